@@ -717,6 +717,18 @@ class Evaluator:
             raise EvalError("call to %s" % e[1])
         return self.call_handler(self, e, st)
 
+    def ev_construct(self, e, st):
+        # copy-construction of an iterator / value from one argument of the same type
+        if len(e[2]) == 1:
+            return self.ev(e[2][0], st)
+        raise EvalError("construct %s" % e[1])
+
+    def ev_mcall(self, e, st):
+        h = getattr(self, "mcall_handler", None)
+        if h is None:
+            raise EvalError("member call %s" % e[2])
+        return h(self, e, st)
+
     def ev_member(self, e, st):
         raise EvalError("member access %s" % e[2])
 
